@@ -32,6 +32,7 @@ type corpusPoly struct {
 	Name   string       `json:"name"`
 	V      [][2]float64 `json:"v"`
 	Points [][2]float64 `json:"points"` // replayed in addition to the grid
+	Only   bool         `json:"only_points"` // evaluate the listed points only (inputs of known findings: a fixed key set)
 }
 
 type corpusFile struct {
@@ -148,6 +149,7 @@ type poly struct {
 	family string
 	v      []v2.Vec
 	extra  []v2.Vec // additional query points (corpus)
+	only   bool     // evaluate only the extra points
 	exact  bool     // every cut point is expected to lie exactly on its segment (axis-parallel edges)
 }
 
@@ -523,7 +525,7 @@ func check(c *Ctx, r *Report) error {
 
 	var polys []poly
 	for _, e := range cp.Polygons {
-		p := poly{name: e.Name, family: "corpus"}
+		p := poly{name: e.Name, family: "corpus", only: e.Only}
 		for _, q := range e.V {
 			p.v = append(p.v, v2.Vec{X: q[0], Y: q[1]})
 		}
@@ -624,7 +626,9 @@ func check(c *Ctx, r *Report) error {
 			pts = append(pts, qpoint{q, "corpus"})
 		}
 		full := len(xs)*len(ys) <= gridCap
-		if full {
+		if pl.only {
+			full = false
+		} else if full {
 			for _, y := range ys {
 				for _, x := range xs {
 					pts = append(pts, qpoint{v2.Vec{X: x, Y: y}, "grid/x-" + class[x] + "/y-" + classY[y]})
@@ -645,6 +649,9 @@ func check(c *Ctx, r *Report) error {
 		}
 		// one ulp above / below every vertex level, at split-line and vertex xs
 		for _, y := range uniq(append([]float64{}, vys...)) {
+			if pl.only {
+				break
+			}
 			for k := 0; k < 6; k++ {
 				x := xs[rng.Intn(len(xs))]
 				pts = append(pts, qpoint{v2.Vec{X: x, Y: math.Nextafter(y, math.Inf(1))}, "ulp-above-level"})
@@ -654,6 +661,9 @@ func check(c *Ctx, r *Report) error {
 		nr := nRandom
 		if len(segs) > 100 {
 			nr /= 2
+		}
+		if pl.only {
+			nr = 0
 		}
 		for k := 0; k < nr; k++ {
 			m := 0.2 * size
@@ -745,7 +755,14 @@ func check(c *Ctx, r *Report) error {
 			}
 			chs[i] = CList(xs)
 		}
-		ctree.Add(fmt.Sprintf("(%d%%N, %s, %d%%N, %s,\n %s,\n %s)", pi+1, CB(pl.exact), sdf.VerifQtMaxLevel, vertsTerm(pl.v), tb.String(), CList(chs)))
+		mode := 0
+		if pl.exact {
+			mode = 1
+		}
+		if pl.only {
+			mode = 2 // input of a known finding
+		}
+		ctree.Add(fmt.Sprintf("(%d%%N, %d%%N, %d%%N, %s,\n %s,\n %s)", pi+1, mode, sdf.VerifQtMaxLevel, vertsTerm(pl.v), tb.String(), CList(chs)))
 
 		// ... and evaluation at sampled points (every disagreeing point included)
 		var sel []obs
@@ -768,7 +785,7 @@ func check(c *Ctx, r *Report) error {
 		var pterms []string
 		for k, o := range sel {
 			pid++
-			pterms = append(pterms, fmt.Sprintf("(%d%%N, %s, %s, (%s,%s), %s, %s)", pid, CB(k%qEvery == 0), CB(o.boundary), CF(o.q.p.X), CF(o.q.p.Y), CF(o.f), CF(o.s)))
+			pterms = append(pterms, fmt.Sprintf("(%d%%N, %s, %s, (%s,%s), %s, %s)", pid, CB(k%qEvery == 0 && !pl.only), CB(o.boundary), CF(o.q.p.X), CF(o.q.p.Y), CF(o.f), CF(o.s)))
 		}
 		ceval.Add(fmt.Sprintf("(%s,\n %s,\n %s)", vertsTerm(pl.v), tb.String(), CList(pterms)))
 	}
